@@ -159,10 +159,24 @@ fn run_step(s: &mut Box<dyn Dyn>, st: &Step) -> String {
 }
 
 pub fn emit_case(out: &mut Out, kind: &str, factor: (usize, usize), recipe: &str, steps: &[Step]) {
+    emit_case_fault(out, kind, factor, recipe, steps, Fault::None);
+}
+
+/// Number of SAT calls of a fault-free run of the history (on a scratch output).
+pub fn count_solves(kind: &str, factor: (usize, usize), steps: &[Step]) -> usize {
+    let mut scratch = Out::default();
+    emit_case_fault(&mut scratch, kind, factor, "count", steps, Fault::None);
+    scratch.buf.lines().filter(|l| l.starts_with("EV ") && l.contains(" solve ")).count()
+}
+
+/// With `Fault::UnknownAt(k)` the k-th SAT call of the whole history (0-based) answers Unknown: the query
+/// that makes it must abort (a panic of `unwrap_model`); the history stops there (property C17).
+pub fn emit_case_fault(out: &mut Out, kind: &str, factor: (usize, usize), recipe: &str, steps: &[Step], fault: Fault) {
     out.case(&format!("dynamic/{}", kind));
     out.inp(&format!("kind {} factor {}/{}", kind, factor.0, factor.1));
     out.inp(&format!("recipe {}", recipe));
-    let sh = new_shared(Fault::None);
+    let faulty = if let Fault::UnknownAt(k) = fault { out.inp(&format!("fault {}", k)); true } else { false };
+    let sh = new_shared(fault);
     let mut flushed = 0usize;
     let mut flush = |out: &mut Out, sh: &Rc<Shared>| {
         let log = sh.log.borrow();
@@ -181,6 +195,8 @@ pub fn emit_case(out: &mut Out, kind: &str, factor: (usize, usize), recipe: &str
                 let line = run_step(&mut s, st);
                 flush(out, &sh);
                 out.out(&line);
+                // an aborted query ends a fault-injection history (the solver object may be poisoned)
+                if faulty && matches!(st, Step::Query { .. }) && line.starts_with("panic") { break; }
             }
             // dropping a solver whose RefCell was poisoned by a caught panic may panic again
             let _ = guarded(move || drop(s));
@@ -547,12 +563,14 @@ pub fn run(rng: &mut Rng, count: usize, thorough: bool, extra: &[String], out: &
     let mut invalid = false;
     let mut replay: Option<String> = None;
     let mut only: Option<String> = None;
+    let mut faults = false;
     let mut i = 0;
     while i < extra.len() {
         match extra[i].as_str() {
             "--invalid" => { invalid = extra[i + 1] == "1"; i += 2 }
             "--replay" => { replay = Some(extra[i + 1].clone()); i += 2 }
             "--kind" => { only = Some(extra[i + 1].clone()); i += 2 }
+            "--faults" => { faults = extra[i + 1] == "1"; i += 2 }
             _ => i += 1,
         }
     }
@@ -568,6 +586,19 @@ pub fn run(rng: &mut Rng, count: usize, thorough: bool, extra: &[String], out: &
         let kind = match &only { Some(k) => k.as_str(), None => KINDS[(start + c) % KINDS.len()].0 };
         let factor = if kind.ends_with("_att") { *rng.pick(&FACTORS) } else { (1, 1) };
         let (recipe, steps) = gen_history(rng, kind, invalid, thorough);
+        if faults {
+            // C17: fault-free run to count the SAT calls of the history, then up to three runs with one of
+            // them answering Unknown (the first, the last and a random one)
+            let k = count_solves(kind, factor, &steps);
+            if k == 0 { continue; }
+            let mut pos = vec![0, k - 1, rng.below(k)];
+            pos.sort();
+            pos.dedup();
+            for p in pos {
+                emit_case_fault(out, kind, factor, recipe, &steps, Fault::UnknownAt(p));
+            }
+            continue;
+        }
         emit_case(out, kind, factor, recipe, &steps);
     }
 }
